@@ -300,6 +300,8 @@ pub enum Fault {
     DupLate(u8),
     /// hold the datagram until k later datagrams were delivered to the same side
     Delay(u8),
+    /// burst loss: this datagram and the next k-1 datagrams from the same sender are lost
+    DropBurst(u8),
 }
 
 impl Fault {
@@ -310,6 +312,7 @@ impl Fault {
             Fault::DupNow => "dup".into(),
             Fault::DupLate(k) => format!("duplate{k}"),
             Fault::Delay(k) => format!("delay{k}"),
+            Fault::DropBurst(k) => format!("dropburst{k}"),
         }
     }
 }
